@@ -32,6 +32,9 @@ import (
 const c06IssA = "did:key:z6MkvJPmEZZYbgiw1ouT1oouTsTFBHJSts9ophVsNgcRmYxU"
 const c06IssB = "did:key:z6Mkq5YmbJcTrPExNDi26imrTCpKhepjBFBSHqrBDN2ArPkv"
 
+// an X25519 (key agreement) identifier: not a key that can sign
+const c06IssX = "did:key:z6LSbk7MN8NDFRJBo2wkq5sYG4XonrAvuJVkS4NaaDcbD6Th"
+
 type c06Proto struct{}
 
 func (c06Proto) NewBuilder() datamodel.NodeBuilder       { return basicnode.Prototype.Any.NewBuilder() }
@@ -137,12 +140,13 @@ func VerifC06Envelope() {
 	if vChoose("signed_header_is_foreign", 2) == 1 {
 		h0 = vBytes("h0", []int{len(hdr), len(hdr) - 1, 0, len(hdr) + 1}[vChoose("h0_len", 4)])
 	}
-	env0, sp0 := c06Envelope(sig0, envelope.VarsigHeaderKey, h0, Tag, c06IssA, cmd0, false)
+	iss0 := []string{c06IssA, c06IssX}[vChoose("iss0", 2)]
+	env0, sp0 := c06Envelope(sig0, envelope.VarsigHeaderKey, h0, Tag, iss0, cmd0, false)
 	c06.signedData, c06.signedSig = c06Encode(sp0), sig0
 
 	if vChoose("honest_first", 2) == 1 {
 		tkn, err := envelope.FromIPLD[*tokenPayloadModel](env0)
-		if c06.mode == 0 && len(c06.askedDIDs) == 1 && c06.calls == 1 && vConcBool(vEqBytes(h0, hdr)) {
+		if c06.mode == 0 && len(c06.askedDIDs) == 1 && c06.calls == 1 && vConcBool(vEqBytes(h0, hdr)) && iss0 == c06IssA {
 			vReach("honest-decoded")
 			vAssert(err == nil && tkn != nil, "the honest token is rejected although the issuer's key verifies it")
 		}
@@ -153,7 +157,7 @@ func VerifC06Envelope() {
 	sig1 := vBytes("sig1", 3)
 	cmd1 := vString("cmd1", 2)
 	h1 := vBytes("h1", []int{len(hdr), len(hdr) - 1, 0, len(hdr) + 1}[vChoose("h1_len", 4)])
-	iss1 := []string{c06IssA, c06IssB}[vChoose("iss1", 2)]
+	iss1 := []string{c06IssA, c06IssB, c06IssX}[vChoose("iss1", 3)]
 	env1, sp1 := c06Envelope(sig1, envelope.VarsigHeaderKey, h1, Tag, iss1, cmd1, false)
 	tkn, err := envelope.FromIPLD[*tokenPayloadModel](env1)
 	if err != nil {
@@ -162,6 +166,7 @@ func VerifC06Envelope() {
 		return
 	}
 	vReach("accepted")
+	vAssert(iss1 != c06IssX, "a token is returned whose issuer identifier does not hold a signing key (X25519)")
 	vAssert(c06.mode == 0, "a token is returned although the key's Verify did not answer (true, nil)")
 	vAssert(c06.calls == 1, "a token is returned without asking the issuer's key exactly once")
 	if c06.calls != 1 {
